@@ -192,7 +192,8 @@ def check(ctx, bindir, exe, cases, vfs_ok=True, lsp_bindir=None):
     stats["server_sessions"] = stats["server_steps"] = stats["server_unusable"] = 0
     if lsp_bindir is not None:
         from concurrent.futures import ThreadPoolExecutor
-        todo = [(c, m) for c, m in zip(cases, mem) if "steps" in m]
+        # ($INCLUDE_DIR cannot be pointed into lspdrive's per-run directory: those sessions stay with layers 1-3)
+        todo = [(c, m) for c, m in zip(cases, mem) if "steps" in m and c.get("include_dir") is None]
         scripts = [H.lsp_script(c, [st.get("files") or [] for st in m["steps"]]) for c, m in todo]
         with ThreadPoolExecutor(max_workers=max(2, min(8, vlib.NCPU - 2))) as ex:
             outs = list(ex.map(lambda sm: H.run_lsp(lsp_bindir, sm[0]), scripts))
